@@ -172,6 +172,61 @@ def run(rep, tier, rng):
             if nfail == 1:
                 rep.violation({"kind": "oracle", "what": msg, "case_kind": "path", "type": code})
     pathio.cleanup("c06")
+    # ---- a record whose type code is no ESRI code, among records of the requested type: the typed read reports what the
+    # generic read reports (the same InvalidShapeType error), item by item, by iteration, random access and in bulk
+    import struct
+    ucases, umeta = [], []
+    for mi in range(13 if tier != "thorough" else 39):
+        code = shapes.ALL_CODES[mi % 13]
+        m = F.gen_model(rng, code, nrecs=3, null_prob=0.0, allow_degenerate=False)
+        m.pop("trailing", None)
+        shp, shx = bytearray(refesri.encode_shp(m)), refesri.encode_shx(m)
+        pos = 100 + len(refesri.encode_record(1, m["records"][0]["shape"])) + 8
+        bad = [2, 4, 32, -1, 2147483647, -2147483648, 0x01000008, 6, 33][mi % 9]
+        shp[pos:pos + 4] = struct.pack("<i", bad)
+        for wi in (True, False):
+            for ops in ([("it", -1)], [("nth", 0), ("nth", 1), ("nth", 2)] if wi else [("it", 1), ("it", -1)], [("readall",)]):
+                for req in (-1, code):
+                    ucases.append(C.read_case(req, bytes(shp), shx if wi else None, ops))
+                    umeta.append((code, bad, wi, ops, req))
+    uimpl = stages.correspondence(rep, "read_undef", dev, ucases, "read(record with an undefined type code, typed and generic)")
+    for i in range(0, len(ucases), 2):
+        (code, bad, wi, ops, _), rg, rt = umeta[i], uimpl[i], uimpl[i + 1]
+        g, t = C.parse_read(rg, ops), C.parse_read(rt, ops)
+        if g.get("ops") != t.get("ops"):
+            nfail += 1
+            rep.violation({"kind": "oracle", "what": "a file of type %d whose second record carries the undefined type code %d, %s index, "
+                           "ops %r: the typed reader answers %r, the generic reader %r" % (
+                               code, bad, "with" if wi else "without", ops,
+                               [[x[:3] if isinstance(x, tuple) and x[0] != "ok" else "ok" for x in o.get("items", [])] or o for o in t.get("ops", [])][:3],
+                               [[x[:3] if isinstance(x, tuple) and x[0] != "ok" else "ok" for x in o.get("items", [])] or o for o in g.get("ops", [])][:3]),
+                           "case_kind": "read", "case": ucases[i + 1]})
+            break
+    rep.cov["undefined_code_records_typed_vs_generic"] = len(ucases)
+    # ---- the complete reader: the generic bulk read continues from where the reader stands, like the typed one
+    import C08
+    qcases, qmeta = [], []
+    for code in (shapes.ALL_CODES if tier == "thorough" else rng.sample(shapes.ALL_CODES, 4)):
+        a = shapes.gen_ctor(rng, code, "small", True, 1, 2)
+        for n, k in ((4, 2), (4, 0), (3, 3), (5, 1)):
+            for pre in ([("seek", k)], [("it", 1), ("seek", k)], [("seek", k), ("it", 1)]):
+                ops = pre + [("readall",)]
+                qcases.append(C08.pair_case([(0, a)] * n, ops))
+                qmeta.append((n, k, ops))
+    qimpl = stages.correspondence(rep, "pair_bulk", dev, qcases, "pair(bulk read of the complete reader after seek)", vm_sample=20)
+    for c, (n, k, ops), r in zip(qcases, qmeta, qimpl):
+        if r in ([-4], [-2], [2], [-5]):
+            continue
+        res = C08.parse_pair(r, n, ops)
+        if "ops" not in res:
+            continue
+        first = k + (1 if ops[-2][0] == "it" else 0)
+        ids = [it[2] for it in res["ops"][-1]["items"] if it[0] == "ok"]
+        if ids != list(range(first, n)):
+            nfail += 1
+            rep.violation({"kind": "oracle", "what": "complete reader, %d pairs, after %r the bulk read returned the rows %r, expected %r"
+                           % (n, ops[:-1], ids, list(range(first, n))), "case_kind": "pair", "case": c})
+            break
     # ---- typed random access and bulk reads
     bimpl = stages.correspondence(rep, "read_bulk", dev, bcases, "read(read_nth_shape_as / read_as / read, typed x actual)")
     for (T, S, items, codes, wi, ops2, htype), r, c in zip(bmeta, bimpl, bcases):
